@@ -135,6 +135,10 @@ def prop(node, k):
     if isinstance(node, ast.BoolOp):
         sym = " ∧ " if isinstance(node.op, ast.And) else " ∨ "
         return "(" + sym.join(prop(v, k) for v in node.values) + ")"
+    if isinstance(node, ast.Compare) and len(node.ops) > 1:   # chained comparison a < b <= c
+        items = [node.left] + list(node.comparators)
+        return "(" + " ∧ ".join(prop(ast.Compare(left=l, ops=[op], comparators=[r]), k)
+                                for op, l, r in zip(node.ops, items, items[1:])) + ")"
     if isinstance(node, ast.Compare) and len(node.ops) == 1:
         r = node.comparators[0]
         if isinstance(r, ast.Name) and k.env.vars.get(r.id, (None, None))[1] == "INF":
@@ -155,63 +159,109 @@ def bind(k, name, lean, typ):
     k.env.vars[name] = (ln, typ)
 
 
-def loop_nest(st):
-    """for y in range(A): for x in range(B): body  ->  (y, A, x, B, body)"""
-    def rng(f):
-        if not (isinstance(f.iter, ast.Call) and ast.unparse(f.iter.func) == "range" and len(f.iter.args) == 1
-                and isinstance(f.target, ast.Name) and not f.orelse):
-            raise Untranslatable(f"loop header {ast.unparse(f.iter)}")
-        return f.target.id, f.iter.args[0]
-    y, a = rng(st)
-    if len(st.body) != 1 or not isinstance(st.body[0], ast.For):
-        raise Untranslatable("loop nest is not two levels deep")
-    x, b = rng(st.body[0])
-    return y, a, x, b, st.body[0].body
+def _range_header(f):
+    if not (isinstance(f.iter, ast.Call) and ast.unparse(f.iter.func) == "range" and len(f.iter.args) == 1
+            and isinstance(f.target, ast.Name) and not f.orelse):
+        raise Untranslatable(f"loop header {ast.unparse(f.iter)}")
+    return f.target.id, f.iter.args[0]
+
+
+def _local_let(s, inner):
+    if not (isinstance(s, ast.Assign) and len(s.targets) == 1 and isinstance(s.targets[0], ast.Name)):
+        raise Untranslatable(f"loop body statement {ast.unparse(s)[:50]}")
+    e, te = scalar(s.value, inner)
+    bind(inner, s.targets[0].id, e, te)
+
+
+def _min_update(stmts, res_names, inner):
+    """statements of a guarded block that lower a running minimum: optional local lets, then either
+    `res = min((res, e))` or `if e < res: res = e`  ->  (res, lean text of e)"""
+    *pre, last = stmts
+    for s in pre:
+        _local_let(s, inner)
+    if isinstance(last, ast.Assign) and len(last.targets) == 1 and isinstance(last.targets[0], ast.Name):
+        res, v = last.targets[0].id, last.value
+        if res in res_names and isinstance(v, ast.Call) and ast.unparse(v.func) == "min" and len(v.args) == 1 \
+                and isinstance(v.args[0], ast.Tuple) and len(v.args[0].elts) == 2:
+            a, b = v.args[0].elts
+            other = b if ast.unparse(a) == res else (a if ast.unparse(b) == res else None)
+            if other is not None:
+                e, te = scalar(other, inner)
+                return res, coerce(e, te, RAT)
+    if isinstance(last, ast.If) and not last.orelse and len(last.body) == 1 and isinstance(last.test, ast.Compare) \
+            and len(last.test.ops) == 1 and isinstance(last.body[0], ast.Assign) and len(last.body[0].targets) == 1:
+        t = last.test
+        asg = last.body[0]
+        res = ast.unparse(asg.targets[0])
+        cand = None
+        if isinstance(t.ops[0], ast.Lt) and ast.unparse(t.comparators[0]) == res:
+            cand = t.left
+        elif isinstance(t.ops[0], ast.Gt) and ast.unparse(t.left) == res:
+            cand = t.comparators[0]
+        if res in res_names and cand is not None and ast.unparse(asg.value) == ast.unparse(cand):
+            e, te = scalar(cand, inner)
+            return res, coerce(e, te, RAT)
+    raise Untranslatable(f"running minimum update {ast.unparse(last)[:70]}")
 
 
 def tr_loop(st, k):
-    y, a, x, b, body = loop_nest(st)
+    """for y in range(A): [row lets] for x in range(B): [cell lets] (accumulations | guarded minimum update)"""
+    y, a = _range_header(st)
     n, tn = scalar(a, k)
-    m, tm = scalar(b, k)
-    if tn != INT or tm != INT:
+    if tn != INT:
         raise Untranslatable("loop bound")
     inner = k.copy()
     inner.lines = []
     inner.env.vars[y] = (y, INT)
+    *row_pre, inner_for = st.body
+    if not isinstance(inner_for, ast.For):
+        raise Untranslatable("loop nest is not two levels deep")
+    for s in row_pre:
+        _local_let(s, inner)
+    x, b = _range_header(inner_for)
+    m, tm = scalar(b, k)
+    if tm != INT:
+        raise Untranslatable("loop bound")
     inner.env.vars[x] = (x, INT)
-    if all(isinstance(s, ast.AugAssign) and isinstance(s.op, ast.Add) and isinstance(s.target, ast.Name) for s in body):
+    body = inner_for.body
+    accs = [s for s in body if isinstance(s, ast.AugAssign)]
+    if accs:
+        if not all(isinstance(s, ast.AugAssign) or isinstance(s, ast.Assign) for s in body):
+            raise Untranslatable("accumulation loop with other statements")
+        results = []
         for s in body:
+            if isinstance(s, ast.Assign):
+                _local_let(s, inner)
+                continue
+            if not (isinstance(s.op, ast.Add) and isinstance(s.target, ast.Name)):
+                raise Untranslatable(f"accumulation {ast.unparse(s)}")
             acc = s.target.id
             if k.env.vars.get(acc, (None, None))[0] not in ("(0 : Int)", "(0 : Rat)"):
                 raise Untranslatable(f"accumulator {acc} does not start at zero")
             e, te = scalar(s.value, inner)
+            lets = " ".join(ln + ";" for ln in inner.lines)
+            results.append((acc, f"Model.lsum (Model.flat (fun ({y} {x} : Int) => ({lets} {coerce(e, te, RAT)})) {n} {m})"))
+        for acc, lean in results:
             k.env.vars[acc] = ("consumed", RAT)
             ln = k.env.fresh(acc)
-            k.lines.append(f"let {ln} : Rat := Model.lsum (Model.flat (fun ({y} {x} : Int) => {coerce(e, te, RAT)}) {n} {m})")
+            k.lines.append(f"let {ln} : Rat := {lean}")
             k.env.vars[acc] = (ln, RAT)
         return
     # guarded running minimum
     *pre, last = body
     for s in pre:
-        if not (isinstance(s, ast.Assign) and len(s.targets) == 1 and isinstance(s.targets[0], ast.Name)):
-            raise Untranslatable(f"loop body statement {ast.unparse(s)[:50]}")
-        e, te = scalar(s.value, inner)
-        bind(inner, s.targets[0].id, e, te)
-    if not (isinstance(last, ast.If) and not last.orelse and len(last.body) == 1 and isinstance(last.body[0], ast.Assign)):
+        _local_let(s, inner)
+    if not (isinstance(last, ast.If) and not last.orelse):
         raise Untranslatable("loop body is neither accumulation nor guarded minimum")
-    asg = last.body[0]
-    res = asg.targets[0].id if isinstance(asg.targets[0], ast.Name) else None
-    v = asg.value
-    ok = (res in k.optmin and k.optmin[res] == "none" and isinstance(v, ast.Call) and ast.unparse(v.func) == "min"
-          and len(v.args) == 1 and isinstance(v.args[0], ast.Tuple) and len(v.args[0].elts) == 2
-          and ast.unparse(v.args[0].elts[0]) == res)
-    if not ok:
-        raise Untranslatable(f"running minimum update {ast.unparse(asg)}")
+    open_min = {r for r, v in k.optmin.items() if v == "none"}
+    outer_lets = list(inner.lines)
     c = prop(last.test, inner)
-    e, te = scalar(v.args[0].elts[1], inner)
-    lets = " ".join(ln + ";" for ln in inner.lines)
+    inner.lines = []
+    res, e = _min_update(last.body, open_min, inner)
+    guard_lets = " ".join(ln + ";" for ln in inner.lines)
+    lets = " ".join(ln + ";" for ln in outer_lets)
     k.optmin[res] = (f"(Model.minOpt ((Model.irange {n}).flatMap fun ({y} : Int) => (Model.irange {m}).filterMap fun ({x} : Int) => "
-                     f"({lets} if {c} then some {coerce(e, te, RAT)} else none)))")
+                     f"({lets} if {c} then ({guard_lets} some {e}) else none)))")
 
 
 def tr_stmts(stmts, k):
@@ -227,6 +277,13 @@ def tr_stmts(stmts, k):
                 k1.lines, k2.lines = [], []
                 a = tr_stmts(s.body, k1)
                 b = tr_stmts(s.orelse, k2)
+                return f"if {c} then ({' '.join(x + ';' for x in k1.lines)} {a}) else ({' '.join(x + ';' for x in k2.lines)} {b})"
+            if not s.orelse and rest and isinstance(s.body[-1], ast.Return):   # early return: the rest is the else branch
+                c = prop(s.test, k)
+                k1, k2 = k.copy(), k.copy()
+                k1.lines, k2.lines = [], []
+                a = tr_stmts(s.body, k1)
+                b = tr_stmts(rest, k2)
                 return f"if {c} then ({' '.join(x + ';' for x in k1.lines)} {a}) else ({' '.join(x + ';' for x in k2.lines)} {b})"
             raise Untranslatable("if statement without returns on both branches")
         if isinstance(s, ast.For):
@@ -360,10 +417,18 @@ def _shift_component(relpath, comp, anchor, crop, typ):
 def evaluate_loop_def(relpath, lean_name="evaluate_one"):
     fn = find_def(relpath, "evaluate_correlations")
     loops = [s for s in stmts_of(fn) if isinstance(s, ast.For)]
-    if len(loops) != 1 or len(stmts_of(fn)) != 1:
+    if len(loops) != 1 or not isinstance(stmts_of(fn)[-1], ast.For):
         raise Untranslatable("evaluate_correlations is not a single loop")
     loop = loops[0]
-    if not (isinstance(loop.target, ast.Name) and ast.unparse(loop.iter) == "range(len(corrs))"):
+    counts = {"len(corrs)"}
+    for s0 in stmts_of(fn)[:-1]:   # hoisted loop bound
+        if isinstance(s0, ast.Assign) and len(s0.targets) == 1 and isinstance(s0.targets[0], ast.Name) \
+                and ast.unparse(s0.value) == "len(corrs)":
+            counts.add(s0.targets[0].id)
+        else:
+            raise Untranslatable(f"evaluate_correlations statement before the loop: {ast.unparse(s0)[:50]}")
+    if not (isinstance(loop.target, ast.Name) and isinstance(loop.iter, ast.Call) and ast.unparse(loop.iter.func) == "range"
+            and len(loop.iter.args) == 1 and ast.unparse(loop.iter.args[0]) in counts):
         raise Untranslatable(f"evaluate_correlations loop header {ast.unparse(loop.iter)}")
     i = loop.target.id
     k = KEnv()
@@ -381,6 +446,9 @@ def evaluate_loop_def(relpath, lean_name="evaluate_one"):
         if isinstance(t, ast.Name) and tv == f"corrs[{i}]":
             arr_name = t.id
             k.arrs[t.id] = Arr(t.id, f"{t.id}_n", f"{t.id}_m")
+            continue
+        if isinstance(t, ast.Name) and tv == f"peaks[{i}]":   # alias of the peak of this iteration
+            k.tuples[t.id] = k.tuples[f"peaks[{i}]"]
             continue
         if isinstance(t, ast.Name) and isinstance(v, ast.Call) and ast.unparse(v.func) == "unravel_index":
             if [ast.unparse(a) for a in v.args] != [f"np.argmax({arr_name})", f"{arr_name}.shape"]:
@@ -414,7 +482,9 @@ def evaluate_loop_def(relpath, lean_name="evaluate_one"):
         if isinstance(t, ast.Subscript) and ast.unparse(t.slice) == i and isinstance(t.value, ast.Name):
             out = t.value.id
             if isinstance(v, ast.Call) and ast.unparse(v.func) == "_shift":
-                if len(v.args) != 3 or ast.unparse(v.args[1]) != f"peaks[{i}]" or ast.unparse(v.args[2]) != "crop_size":
+                anchor_ok = ast.unparse(v.args[1]) == f"peaks[{i}]" or (
+                    isinstance(v.args[1], ast.Name) and k.tuples.get(v.args[1].id) is k.tuples[f"peaks[{i}]"])
+                if len(v.args) != 3 or not anchor_ok or ast.unparse(v.args[2]) != "crop_size":
                     raise Untranslatable(f"_shift call {tv}")
                 src = v.args[0]
                 if isinstance(src, ast.Call) and ast.unparse(src.func) == "np.array" and len(src.args) == 1:
@@ -435,7 +505,13 @@ def evaluate_loop_def(relpath, lean_name="evaluate_one"):
                 (py, _), (px, _) = k.tuples[c.args[0].id]
                 a = arr_expr(c.args[1], k)
                 h, th = scalar(c.args[2], k)
-                outs[out] = f"(peak_elevation {a.fn} {a.n} {a.m} sqrt {py} {px} {coerce(h, th, RAT)} elev_rmin)"
+                pe = find_def(relpath, "peak_elevation")
+                names_ = [x.arg for x in pe.args.args]
+                dflt = dict(zip(names_[len(names_) - len(pe.args.defaults):], pe.args.defaults))
+                if names_[:3] != [names_[0], names_[1], names_[2]] or "r_min" not in dflt or ast.unparse(dflt.get("r_max")) != "np.inf":
+                    raise Untranslatable("peak_elevation defaults")
+                rmin, trm = tr(dflt["r_min"], Env())
+                outs[out] = f"(peak_elevation {a.fn} {a.n} {a.m} sqrt {py} {px} {coerce(h, th, RAT)} {coerce(rmin, trm, RAT)})"
                 continue
             e, te = scalar(v, k)
             outs[out] = coerce(e, te, RAT)
